@@ -5,6 +5,7 @@ import (
 	"fmt"
 	"strings"
 	"sync"
+	"time"
 
 	smtp "github.com/emersion/go-smtp"
 	"verif/ref"
@@ -22,7 +23,9 @@ type Config struct {
 	BinaryMIME        bool  `json:"binarymime,omitempty"`
 	DSN               bool  `json:"dsn,omitempty"`
 	RRVS              bool  `json:"rrvs,omitempty"`
-	TLSAvailable      bool  `json:"tls,omitempty"` // Server.TLSConfig set
+	TLSAvailable      bool  `json:"tls,omitempty"`        // Server.TLSConfig set
+	Timeouts          bool  `json:"timeouts,omitempty"`   // ReadTimeout and WriteTimeout set (1 minute)
+	PeerPause         bool  `json:"peer_pause,omitempty"` // the scripted peer waits 40 s (virtual) before every segment
 }
 
 // LogBuf is a concurrency-safe smtp.Logger.
@@ -67,6 +70,9 @@ func (cfg Config) NewServer(be smtp.Backend, log *LogBuf) *smtp.Server {
 	if cfg.TLSAvailable {
 		s.TLSConfig = ServerTLSConfig()
 	}
+	if cfg.Timeouts {
+		s.ReadTimeout, s.WriteTimeout = time.Minute, time.Minute
+	}
 	s.ErrorLog = log
 	return s
 }
@@ -96,6 +102,10 @@ func RunS(cfg Config, be *Backend, segs [][]byte, term string) *Obs {
 	log := &LogBuf{}
 	srv := cfg.NewServer(be, log)
 	sc := NewScriptConn(segs, term)
+	sc.RequireDeadlines = cfg.Timeouts
+	if cfg.PeerPause {
+		sc.Pause = 40 * time.Second
+	}
 	o := &Obs{}
 	var conn *smtp.Conn
 	sc.OnExhausted = func() {
@@ -121,6 +131,9 @@ func RunS(cfg Config, be *Backend, segs [][]byte, term string) *Obs {
 		be.mu.Lock()
 		o.Anomalies = append([]string(nil), be.Anomalies...)
 		be.mu.Unlock()
+		if sc.DeadlineAnomaly != "" {
+			o.Anomalies = append(o.Anomalies, sc.DeadlineAnomaly)
+		}
 	})
 	sc.mu.Lock()
 	o.Writes = sc.Writes
